@@ -242,7 +242,8 @@ PROPS = {
                      "core_raw_complete", "noOverlapPairs_complete", "interruptedOne_complete", "periodicOne_complete",
                      "periodicInterruptedOne_complete", "indicator_complete", "eval_congr_term", "eval_congr_fml",
                      "C05_sound_core", "C05_feasible_iff", "envOf_schedOf_task", "envOf_schedOf_busy", "core_raw_sound",
-                     "Exact_ex_inCoreS"],
+                     "agree_own", "agree_own2", "envOf_indicator", "eval_congr2_term", "eval_congr2_fml", "reachable_wf",
+                     "InCoreS.of_reachable", "Exact_ex_inCoreS"],
         "modules": ["Exact"],
         "profiles": [("all", 0.3), ("frag", 0.2), ("resc", 0.1), ("fol", 0.15), ("focus_resc", 0.15), ("focus_taskc", 0.1)],
         "relevant": lambda o: True,
@@ -267,7 +268,10 @@ PROPS = {
     "C06": {
         "theorems": ["C06_scheduled_as_mandatory", "C06_parked", "C06_busy_parked", "C06_blocks_nobody",
                      "C06_constraint_inert", "C06_no_indicator_contribution", "C11_unscheduled_no_assignment",
-                     "C03_raw_sound"],
+                     "C03_raw_sound", "C06_absent_restrict", "C06_absent_extend", "C06_inert_guarded",
+                     "C06_absent_models_restrict", "C06_absent_models_extend", "busyOf_dropTask", "envOf_dropTask_agree",
+                     "Absent_ex_inCoreS"],
+        "modules": ["Absent"],
         "profiles": [("all", 0.35), ("taskc", 0.2), ("obj", 0.15), ("focus_resc", 0.15), ("resc", 0.1), ("focus_taskc", 0.05)],
         "relevant": lambda o: True,
         "spec": None,
@@ -288,7 +292,8 @@ PROPS = {
     },
     "C07": {
         "theorems": ["incLoop_spec", "C07_anytime", "C07_optimal", "incLoop_bound", "C07_bound_stop", "C07_weighted",
-                     "C07_weighted_goal"],
+                     "C07_weighted_goal", "C07_core_attainable", "C07_core_lower_bound"],
+        "modules": ["Exact"],
         "profiles": [("obj", 1.0)],
         "relevant": lambda o: owner_in(o, ("objective", "indicator:")),
         "spec": None,
@@ -573,6 +578,12 @@ def check_script(driver, script, spec, cfg=None):
         res["sem"] = (st, info)
         res["spec_n"] = len(lines)
     res["n_assertions"] = len(out["py"] or [])
+    # is the script inside the fragment of the exactness theorems (State.fragmentB, sound by `fragmentB_sound`)?  There,
+    # equality of the two assertion lists makes `C05_feasible_iff` / `C07_core_attainable` statements about the real code
+    try:
+        res["fragment"] = driver.send_multi("(fragment)")[1] == ["true"]
+    except Exception:  # noqa: BLE001
+        res["fragment"] = False
     # EVAL: the computable evaluator of the Lean development against z3's own evaluation of the real assertions
     try:
         from harness import evalch
@@ -625,6 +636,10 @@ def run_chunk(args):
                 # an accept / reject decision that differs from the proved decision logic is itself the failing input
                 summary["violations"].append({"label": label, "script": script, "kind": "ACC",
                                               "what": "; ".join(r["decl_diffs"][:3])})
+            if r.get("fragment"):
+                summary["dist"]["scripts_inside_exactness_fragment"] = summary["dist"].get("scripts_inside_exactness_fragment", 0) + 1
+                if not (r["decl_diffs"] or r["rel"] or r["oth"] or r["init_error"]):
+                    summary["dist"]["…of_which_real_assertions_equal_model"] = summary["dist"].get("…of_which_real_assertions_equal_model", 0) + 1
             ev = r.get("eval") or ([], 0)
             summary["dist"]["eval_formulas_evaluated"] = summary["dist"].get("eval_formulas_evaluated", 0) + ev[1]
             if ev[0]:
